@@ -249,6 +249,10 @@ impl Rec {
         }
     }
 
+    pub fn set_verdict(&self, rank: u8, class: usize, v: bool) {
+        self.table[(rank as usize - 1) * 3 + class].store(v as u8, Relaxed);
+    }
+
     pub fn verdict(&self, rank: u8, class: usize) -> bool {
         self.table[(rank as usize - 1) * 3 + class].load(Relaxed) != 0
     }
@@ -365,14 +369,23 @@ pub const T_CUSTOM: u8 = 4; // "ct" (explicit `target:` in the macro)
 
 pub const CALLSITE_TARGET: &str = "vk_log::c18";
 
+/// loop-free `t == c` (straight-line byte comparisons, so that the reverse-direction
+/// harnesses need no unwinding for their own oracle)
+macro_rules! eq_const {
+    ($t:expr, $c:expr; $($i:literal)*) => {{
+        let (b, c) = ($t.as_bytes(), $c.as_bytes());
+        b.len() == c.len() $(&& ($i >= c.len() || b[$i] == c[$i]))*
+    }};
+}
+
 pub fn target_id(t: &str) -> u8 {
-    if t == CALLSITE_TARGET {
+    if eq_const!(t, CALLSITE_TARGET; 0 1 2 3 4 5 6 7 8 9 10) {
         T_CALLSITE
-    } else if t == "tracing::span" {
+    } else if eq_const!(t, "tracing::span"; 0 1 2 3 4 5 6 7 8 9 10 11 12) {
         T_LIFECYCLE
-    } else if t == "tracing::span::active" {
+    } else if eq_const!(t, "tracing::span::active"; 0 1 2 3 4 5 6 7 8 9 10 11 12 13 14 15 16 17 18 19 20) {
         T_ACTIVITY
-    } else if t == "ct" {
+    } else if eq_const!(t, "ct"; 0 1) {
         T_CUSTOM
     } else {
         T_OTHER
